@@ -195,6 +195,7 @@ type ocspWorld struct {
 	errBase  int            // first error status served by an "errStatus" responder (rotates afterwards)
 	errN     int
 	badReq   int // requests a real responder could not have answered (undecodable, or about another certificate)
+	justPast bool
 }
 
 func ocspPath(c string, i int) string { return fmt.Sprintf("/ocsp/%s/%d", c, i) }
@@ -206,6 +207,10 @@ func newOcspWorld(cfg OcspCfg, seed int64) *ocspWorld {
 	w.errBase = int(((seed % 5) + 5) % 5)
 	dim := rand.New(rand.NewSource(seed*0x9E3779B9 + 5)) // concretisation dimensions are drawn independently of each other
 	issuerLikeness := dim.Intn(3)                         // 0: unlike, 1: same name, 2: same key identifier
+	// (an operator who lists the other CA among the trusted responder certificates trusts it not to copy this CA's key identifier:
+	// with both, issuer candidates found by key identifier alone include the other CA - DESIGN.md section 8)
+	trustOthers := dim.Intn(2) == 0 && issuerLikeness != 2
+	w.justPast = dim.Intn(2) == 0
 	w.org = origin.New()
 	w.tlsSrv = httptest.NewTLSServer(http.HandlerFunc(func(rw http.ResponseWriter, r *http.Request) { rw.WriteHeader(500) }))
 	w.stranger = pki.NewCA(pki.CAOpts{Name: "Unrelated Stranger CA", Serial: 900})
@@ -258,7 +263,13 @@ func newOcspWorld(cfg OcspCfg, seed int64) *ocspWorld {
 		if cfg.Dur[v] > 0 {
 			dur = time.Duration(cfg.Dur[v])*ocspTick - ocspTick/2
 		}
-		ch.Provision(&config.OCSPConfig{OCSPAIAStrict: cfg.Strict[v], DefaultCacheDurationParsed: dur}, zap.NewNop())
+		oc := &config.OCSPConfig{OCSPAIAStrict: cfg.Strict[v], DefaultCacheDurationParsed: dur}
+		if trustOthers {
+			// trusted_responder_certs_files of an operator who serves several CAs: the delegated responders of BOTH issuers (each
+			// authorised by its own issuer only) and the issuers themselves
+			oc.TrustedResponderCerts = []*x509.Certificate{w.deleg["cA"].Cert, w.deleg["cB"].Cert, w.issuers["cA"].Cert, w.issuers["cB"].Cert}
+		}
+		ch.Provision(oc, zap.NewNop())
 		w.checkers[v] = ch
 	}
 	cache2go.Cache("ocsp_client").Flush()
@@ -300,6 +311,10 @@ func (w *ocspWorld) install() {
 func (w *ocspWorld) nextUpdate() time.Time {
 	switch w.cfg.Nu {
 	case "past":
+		// long past, or past by less than the clock-skew allowance (still past: the default duration applies)
+		if w.justPast {
+			return time.Now().Add(-4 * time.Minute)
+		}
 		return time.Now().Add(-time.Hour)
 	case "future":
 		return time.Now().Add(time.Hour)
@@ -397,6 +412,11 @@ func (w *ocspWorld) respond(c, cl string) (int, []byte) {
 	case "delegNoEkuAsIssuer":
 		return 200, pki.OCSPResponse(pki.OCSPOpts{Status: claim, Serial: serial, Issuer: iss.Cert, Signer: w.delegNo[c], SignerCert: iss.Cert, EmbedCert: w.delegNo[c].Cert,
 			ThisUpdate: time.Now().Add(-time.Minute), NextUpdate: nu})
+	case "otherDelegBare", "otherDelegEmbedded":
+		// signed by the delegated responder of the OTHER issuer (it has the OCSPSigning extended key usage, and the operator may
+		// have configured it as a trusted responder): this issuer never authorised it
+		other := map[string]string{"cA": "cB", "cB": "cA"}[c]
+		return 200, mk(claim, w.deleg[other], w.deleg[other].Cert, cl == "otherDelegEmbedded", serial)
 	case "delegNoEku":
 		return 200, mk(claim, w.delegNo[c], w.delegNo[c].Cert, true, serial)
 	case "delegNoEkuBare":
